@@ -134,6 +134,33 @@ Section PyListFacts.
       replace (r + j - Nat.min r (length l)) with j by lia. exact Hj.
     - rewrite skipn_all2 in H by lia. destruct H.
   Qed.
+
+  Lemma py_insert_neg (l : list A) (k : nat) (x : A) :
+    0 < k -> py_insert l (- Z.of_nat k)%Z x = list_insert (length l - k) x l.
+  Proof.
+    intro Hk. unfold py_insert, list_insert.
+    destruct (Z.ltb_spec (- Z.of_nat k) 0); [|lia].
+    destruct (Z.ltb_spec (- Z.of_nat k + Z.of_nat (length l)) 0).
+    - replace (length l - k) with 0 by lia. reflexivity.
+    - destruct (Z.ltb_spec (Z.of_nat (length l)) (- Z.of_nat k + Z.of_nat (length l))); [lia|].
+      replace (Z.to_nat (- Z.of_nat k + Z.of_nat (length l))) with (length l - k) by lia. reflexivity.
+  Qed.
+
+  Lemma py_pop_last (l1 : list A) (v : A) : py_pop (l1 ++ [v]) (-1) = Ok (v, l1).
+  Proof.
+    unfold py_pop, py_index. rewrite app_length. simpl length.
+    destruct (Z.ltb_spec (-1) 0); [|lia].
+    destruct (Z.ltb_spec (-1 + Z.of_nat (length l1 + 1)) 0); [lia|].
+    destruct (Z.leb_spec (Z.of_nat (length l1 + 1)) (-1 + Z.of_nat (length l1 + 1))); [lia|].
+    simpl orb. cbv iota.
+    replace (Z.to_nat (-1 + Z.of_nat (length l1 + 1))) with (length l1 + 0) by lia.
+    rewrite nth_error_app_r. simpl nth_error. cbv iota.
+    rewrite Nat.add_0_r, firstn_app, firstn_all, Nat.sub_diag. simpl firstn. rewrite app_nil_r.
+    rewrite skipn_all2 by (rewrite app_length; simpl; lia). now rewrite app_nil_r.
+  Qed.
+
+  Lemma py_pop_last_nil : py_pop (@nil A) (-1) = Raise IndexError.
+  Proof. reflexivity. Qed.
 End PyListFacts.
 
 (* ------------------------------------------------------------------------ *)
@@ -237,15 +264,15 @@ Section BarrelFacts.
     assert (Hmulti :
       exists ls', match translate_index ls (Z.of_nat i) with
                   | Raise e => Raise e
-                  | Ok None => Raise IndexError
-                  | Ok (Some (li, rel)) =>
+                  | Ok tr =>
+                      let '(li, rel) := match tr with None => (0, 0%Z) | Some p => p end in
                       match nth_error ls li with
                       | None => Raise IndexError
                       | Some l => bl_balance limit (set_nth li (py_insert l rel x) ls) li
                       end
                   end = Ok ls' /\ concat ls' = list_insert i x (concat ls) /\ ls' <> []).
     { destruct (translate_index_nat ls i Hne) as (before & l & after & r & E & T & R & C).
-      rewrite T. subst ls. rewrite nth_error_split, set_nth_split.
+      rewrite T. cbv beta iota. subst ls. rewrite nth_error_split, set_nth_split.
       rewrite py_insert_nat.
       destruct (bl_balance_flat before (list_insert r x l) after) as (ls' & B1 & B2 & B3).
       exists ls'. split; [exact B1|]. split; [|exact B3].
@@ -260,6 +287,54 @@ Section BarrelFacts.
     destruct (bl_balance_flat [] (list_insert i x l0) []) as (ls' & B1 & B2 & B3).
     exists ls'. split; [exact B1|]. split; [|exact B3].
     rewrite B2. simpl. now rewrite !app_nil_r.
+  Qed.
+
+  (* ---- negative indices -------------------------------------------------------------- *)
+  Lemma translate_index_neg ls (k : nat) :
+    ls <> [] -> 0 < k ->
+    translate_index ls (- Z.of_nat k)%Z =
+    if k <=? bl_len ls then translate_index ls (Z.of_nat (bl_len ls - k)) else Ok None.
+  Proof.
+    intros Hne Hk. unfold translate_index. destruct ls as [|l0 rest]; [congruence|].
+    destruct (Z.ltb_spec (- Z.of_nat k) 0); [|lia].
+    destruct (Nat.leb_spec k (bl_len (l0 :: rest))) as [Hle|Hgt].
+    - destruct (Z.ltb_spec (Z.of_nat (bl_len (l0 :: rest) - k)) 0); [lia|].
+      replace (- Z.of_nat k + Z.of_nat (bl_len (l0 :: rest)))%Z
+        with (Z.of_nat (bl_len (l0 :: rest) - k)) by lia. reflexivity.
+    - set (rel := (- Z.of_nat k + Z.of_nat (bl_len (l0 :: rest)))%Z).
+      assert (Hrel : (rel < 0)%Z) by (unfold rel; lia).
+      simpl translate_go. destruct (Z.ltb_spec rel (Z.of_nat (length l0))); [|lia].
+      destruct (Z.ltb_spec rel 0); [reflexivity|lia].
+  Qed.
+
+  (* insert(-k, x): before the k-th item from the end, clamped to the front *)
+  Theorem bl_insert_neg_flat ls (k : nat) (x : A) :
+    ls <> [] -> 0 < k ->
+    exists ls', bl_insert limit ls (- Z.of_nat k)%Z x = Ok ls' /\
+                concat ls' = list_insert (length (concat ls) - k) x (concat ls) /\ ls' <> [].
+  Proof.
+    intros Hne Hk.
+    destruct (Nat.leb_spec k (length (concat ls))) as [Hle|Hgt].
+    - (* same as inserting at the natural index len - k *)
+      assert (E : bl_insert limit ls (- Z.of_nat k)%Z x
+                  = bl_insert limit ls (Z.of_nat (length (concat ls) - k)) x).
+      { unfold bl_insert. destruct ls as [|l0 [|l1 r]]; [congruence| |].
+        - simpl concat. rewrite app_nil_r. now rewrite py_insert_neg, py_insert_nat by exact Hk.
+        - rewrite translate_index_neg by (congruence || exact Hk).
+          rewrite bl_len_concat. apply Nat.leb_le in Hle. now rewrite Hle. }
+      rewrite E. apply bl_insert_flat. exact Hne.
+    - replace (length (concat ls) - k) with 0 by lia.
+      unfold bl_insert. destruct ls as [|l0 [|l1 r]]; [congruence| |].
+      + simpl concat in *. rewrite app_nil_r in *. rewrite py_insert_neg by exact Hk.
+        replace (length l0 - k) with 0 by lia.
+        destruct (bl_balance_flat [] (list_insert 0 x l0) []) as (ls' & B1 & B2 & B3).
+        exists ls'. split; [exact B1|]. split; [|exact B3]. rewrite B2. simpl. now rewrite !app_nil_r.
+      + rewrite translate_index_neg by (congruence || exact Hk).
+        rewrite bl_len_concat. apply Nat.leb_gt in Hgt. rewrite Hgt. cbv beta iota.
+        simpl nth_error. cbv iota. simpl set_nth.
+        change 0%Z with (Z.of_nat 0). rewrite py_insert_nat.
+        destruct (bl_balance_flat [] (list_insert 0 x l0) (l1 :: r)) as (ls' & B1 & B2 & B3).
+        exists ls'. split; [exact B1|]. split; [|exact B3]. rewrite B2. reflexivity.
   Qed.
 
   (* ---- __getitem__ --------------------------------------------------------- *)
@@ -348,6 +423,117 @@ Section BarrelFacts.
   (* ---- len ------------------------------------------------------------------- *)
   (* (bl_len_concat above) *)
 
+  (* ---- pop() / pop(-1) / pop(-k) ------------------------------------------------------------ *)
+  Lemma trim_tail_shape ls :
+    ls <> [] ->
+    concat (trim_tail ls) = concat ls /\
+    exists init lastl, trim_tail ls = init ++ [lastl] /\ (lastl <> [] \/ init = []).
+  Proof.
+    induction ls as [|l rest IH]; intro Hne; [congruence|].
+    destruct rest as [|a r].
+    - simpl. split; [reflexivity|]. exists [], l. split; [reflexivity|now right].
+    - destruct (IH ltac:(discriminate)) as (Ec & init & lastl & Et & Hl).
+      change (trim_tail (l :: a :: r)) with
+        (match trim_tail (a :: r) with [[]] => [l] | r' => l :: r' end).
+      destruct (trim_tail (a :: r)) as [|t0 tr] eqn:Etr.
+      { destruct init; discriminate. }
+      destruct t0 as [|y t0]; destruct tr as [|z tr].
+      + (* the rest is one empty sub-list *)
+        split.
+        * simpl in Ec. simpl. rewrite <- Ec. now rewrite !app_nil_r.
+        * exists [], l. split; [reflexivity|now right].
+      + split; [simpl; simpl in Ec; now rewrite <- Ec|].
+        exists (l :: init), lastl. split; [simpl; now rewrite <- Et|].
+        left. destruct Hl as [Hl|Hl]; [exact Hl|]. subst init. simpl in Et. discriminate.
+      + split; [simpl; simpl in Ec; now rewrite <- Ec|].
+        exists (l :: init), lastl. split; [simpl; now rewrite <- Et|].
+        left. destruct Hl as [Hl|Hl]; [exact Hl|]. subst init. simpl in Et. inversion Et. discriminate.
+      + split; [simpl; simpl in Ec; now rewrite <- Ec|].
+        exists (l :: init), lastl. split; [simpl; now rewrite <- Et|].
+        left. destruct Hl as [Hl|Hl]; [exact Hl|]. subst init. simpl in Et. discriminate.
+  Qed.
+
+  Lemma bl_pop_last_empty ls : ls <> [] -> concat ls = [] -> bl_pop_last ls = Raise IndexError.
+  Proof.
+    intros Hne Ec. destruct (trim_tail_shape ls Hne) as (Et & init & lastl & Es & Hl).
+    unfold bl_pop_last. rewrite Es, last_last.
+    assert (lastl = []).
+    { rewrite Ec, Es, concat_app in Et. simpl in Et. rewrite app_nil_r in Et.
+      apply app_eq_nil in Et. tauto. }
+    subst lastl. reflexivity.
+  Qed.
+
+  Lemma bl_pop_last_flat ls l1 v :
+    ls <> [] -> concat ls = l1 ++ [v] ->
+    exists ls', bl_pop_last ls = Ok (v, ls') /\ concat ls' = l1 /\ ls' <> [].
+  Proof.
+    intros Hne Ec. destruct (trim_tail_shape ls Hne) as (Et & init & lastl & Es & Hl).
+    rewrite Ec, Es, concat_app in Et. simpl in Et. rewrite app_nil_r in Et.
+    assert (Hnl : lastl <> []).
+    { destruct Hl as [Hl|Hl]; [exact Hl|]. subst init. simpl in Et. intro. subst lastl.
+      destruct l1; discriminate. }
+    destruct (exists_last Hnl) as (l2 & v' & El). subst lastl.
+    rewrite app_assoc in Et. apply app_inj_tail in Et as [E1 E2]. subst v'.
+    unfold bl_pop_last. rewrite Es, last_last, py_pop_last.
+    rewrite app_length. simpl length. replace (length init + 1 - 1) with (length init) by lia.
+    rewrite set_nth_split.
+    destruct ((1 <? length init + 1) && match l2 with [] => true | _ :: _ => false end) eqn:Eb.
+    - apply andb_true_iff in Eb as [Eb1 Eb2]. apply Nat.ltb_lt in Eb1.
+      destruct l2; [|discriminate]. rewrite removelast_last.
+      exists init. split; [reflexivity|]. split; [now rewrite app_nil_r in E1|].
+      destruct init; [simpl in Eb1; lia|discriminate].
+    - exists (init ++ [l2]). split; [reflexivity|]. split.
+      + rewrite concat_app. simpl. now rewrite app_nil_r.
+      + destruct init; discriminate.
+  Qed.
+
+  Lemma bl_pop_none_empty ls : ls <> [] -> concat ls = [] -> bl_pop limit ls None = Raise IndexError.
+  Proof.
+    intros Hne Ec. destruct ls as [|l0 [|l1 r]]; [congruence| |].
+    - simpl in Ec. rewrite app_nil_r in Ec. subst l0. reflexivity.
+    - now apply bl_pop_last_empty.
+  Qed.
+
+  Lemma bl_pop_none_flat ls l1 v :
+    ls <> [] -> concat ls = l1 ++ [v] ->
+    exists ls', bl_pop limit ls None = Ok (v, ls') /\ concat ls' = l1 /\ ls' <> [].
+  Proof.
+    intros Hne Ec. destruct ls as [|l0 [|l1' r]]; [congruence| |].
+    - simpl in Ec. rewrite app_nil_r in Ec. subst l0. simpl. rewrite py_pop_last.
+      exists [l1]. split; [reflexivity|]. split; [simpl; now rewrite app_nil_r|discriminate].
+    - now apply bl_pop_last_flat.
+  Qed.
+
+  Lemma bl_pop_neg_eq ls (k : nat) :
+    ls <> [] -> 2 <= k ->
+    bl_pop limit ls (Some (- Z.of_nat k)%Z) =
+    if k <=? bl_len ls then bl_pop limit ls (Some (Z.of_nat (bl_len ls - k))) else Raise IndexError.
+  Proof.
+    intros Hne Hk.
+    assert (G : forall idx, (idx =? -1)%Z = false ->
+      bl_pop limit ls (Some idx) =
+      match translate_index ls idx with
+      | Raise e => Raise e
+      | Ok None => Raise IndexError
+      | Ok (Some (li, rel)) =>
+          match nth_error ls li with
+          | None => Raise IndexError
+          | Some l => match py_pop l rel with
+                      | Raise e => Raise e
+                      | Ok (v, l') => match bl_balance limit (set_nth li l' ls) li with
+                                      | Raise e => Raise e
+                                      | Ok ls' => Ok (v, ls')
+                                      end
+                      end
+          end
+      end).
+    { intros idx Hi. unfold bl_pop. rewrite Hi. destruct ls as [|? [|? ?]]; reflexivity. }
+    rewrite G by (apply Z.eqb_neq; lia).
+    rewrite translate_index_neg by (exact Hne || lia).
+    destruct (k <=? bl_len ls); [|reflexivity].
+    rewrite G by (apply Z.eqb_neq; lia). reflexivity.
+  Qed.
+
   (* ---- bisect.insort_right -------------------------------------------------- *)
   Variable ltb : A -> A -> bool.
 
@@ -434,11 +620,17 @@ Proof. reflexivity. Qed.
 Lemma if_false_eq {X} (a b : X) : (if false then a else b) = b.
 Proof. reflexivity. Qed.
 
+Lemma last_case {X} (L : list X) : L = [] \/ exists l1 v, L = l1 ++ [v].
+Proof.
+  destruct L as [|a L]; [now left|right].
+  destruct (@exists_last X (a :: L)) as (l1 & v & E); [discriminate|]. eauto.
+Qed.
+
 Theorem barrel_refines_list (limit : nat -> nat) : forall ops (ls : barrel (A := nat)),
   ls <> [] -> bl_run limit ls ops = lspec_run (concat ls) ops.
 Proof.
   induction ops as [|op ops IH]; intros ls Hne; [reflexivity|].
-  destruct op as [i x|i|i|k| |]; cbn [bl_run lspec_run bl_step lspec_step].
+  destruct op as [i x|i|i|k|k x| |k| |]; cbn [bl_run lspec_run bl_step lspec_step].
   - destruct (bl_insert_flat limit ls i x Hne) as (ls' & E & F & G).
     rewrite E. f_equal. rewrite <- F. now apply IH.
   - pose proof (bl_pop_flat limit ls i Hne) as P.
@@ -453,6 +645,51 @@ Proof.
     + rewrite (bl_get_neg_flat ls (S k) Hne ltac:(lia)). cbn [Nat.eqb].
       destruct (if S k <=? length (concat ls) then nth_error (concat ls) (length (concat ls) - S k) else None);
         f_equal; now apply IH.
+  - (* insert(-k, x) *)
+    destruct k as [|k].
+    + change (- Z.of_nat 0)%Z with (Z.of_nat 0). cbn [Nat.eqb].
+      destruct (bl_insert_flat limit ls 0 x Hne) as (ls' & E & F & G).
+      rewrite E. f_equal. rewrite <- F. now apply IH.
+    + cbn [Nat.eqb].
+      destruct (bl_insert_neg_flat limit ls (S k) x Hne ltac:(lia)) as (ls' & E & F & G).
+      rewrite E. f_equal. rewrite <- F. now apply IH.
+  - (* pop() *)
+    destruct (last_case (concat ls)) as [Ec|(l1 & v & Ec)].
+    + rewrite (bl_pop_none_empty limit ls Hne Ec), Ec. f_equal. rewrite <- Ec. now apply IH.
+    + destruct (bl_pop_none_flat limit ls l1 v Hne Ec) as (ls' & E & F & G).
+      rewrite E, Ec. destruct (l1 ++ [v]) eqn:El; [destruct l1; discriminate|]. rewrite <- El.
+      rewrite removelast_last, last_last. f_equal. rewrite <- F. now apply IH.
+  - (* pop(-k) *)
+    destruct k as [|[|k]].
+    + change (- Z.of_nat 0)%Z with (Z.of_nat 0). cbn [Nat.eqb].
+      pose proof (bl_pop_flat limit ls 0 Hne) as P.
+      destruct (nth_error (concat ls) 0) as [v|].
+      * destruct P as (ls' & E & F & G). rewrite E. f_equal. rewrite <- F. now apply IH.
+      * rewrite P. f_equal. now apply IH.
+    + (* pop(-1) is pop() *)
+      cbn [Nat.eqb].
+      assert (Ep : bl_pop limit ls (Some (- Z.of_nat 1)%Z) = bl_pop limit ls None).
+      { unfold bl_pop. change (- Z.of_nat 1 =? -1)%Z with true.
+        destruct ls as [|l0 [|l1 r]]; reflexivity. }
+      rewrite Ep.
+      destruct (last_case (concat ls)) as [Ec|(l1 & v & Ec)].
+      * rewrite (bl_pop_none_empty limit ls Hne Ec), Ec. simpl. f_equal.
+        replace (lspec_run [] ops) with (lspec_run (concat ls) ops) by now rewrite Ec.
+        now apply IH.
+      * destruct (bl_pop_none_flat limit ls l1 v Hne Ec) as (ls' & E & F & G).
+        rewrite E, Ec. rewrite app_length. simpl length.
+        destruct (Nat.leb_spec 1 (length l1 + 1)); [|lia].
+        replace (length l1 + 1 - 1) with (length l1 + 0) by lia.
+        rewrite nth_error_app_r. simpl nth_error.
+        rewrite Nat.add_0_r. unfold list_remove. rewrite firstn_app, firstn_all, Nat.sub_diag. simpl firstn.
+        rewrite skipn_all2 by (rewrite app_length; simpl; lia). rewrite !app_nil_r.
+        f_equal. rewrite <- F. now apply IH.
+    + cbn [Nat.eqb]. rewrite (bl_pop_neg_eq limit ls (S (S k)) Hne ltac:(lia)), bl_len_concat.
+      destruct (S (S k) <=? length (concat ls)); [|f_equal; now apply IH].
+      pose proof (bl_pop_flat limit ls (length (concat ls) - S (S k)) Hne) as P.
+      destruct (nth_error (concat ls) (length (concat ls) - S (S k))) as [v|].
+      * destruct P as (ls' & E & F & G). rewrite E. f_equal. rewrite <- F. now apply IH.
+      * rewrite P. f_equal. now apply IH.
   - rewrite bl_len_concat. f_equal. now apply IH.
   - f_equal. now apply IH.
 Qed.
